@@ -473,9 +473,20 @@ def buffers_rule(ctx, facts, cfg):
         if key == 'c_abi::raw_packet':
             copies = [(bi, b['term']) for bi, b in F.blocks(f) if b['term']['k'] == 'call' and (F.call_path(b['term']) or '').endswith('copy_from_slice')]
             for cbi, ct in copies:
-                okl = any(e[0] == 'binop' and e[1] in ('Gt', 'Ge', 'Le', 'Lt') and any(x == ('local', 4) or x == ('const', None) for x in (e[2], e[3])) and
-                          fe is not None and (fe in dom.get(cbi, ()) or fe == cbi) for te, fe, e in guards if e[0] == 'binop' and e[1] in ('Gt', 'Ge')) or \
-                    any(e[0] == 'binop' and e[1] in ('Le', 'Lt') and any(x == ('local', 4) for x in (e[2], e[3])) and te is not None and (te in dom.get(cbi, ()) or te == cbi) for te, fe, e in guards)
+                okl = False
+                for te, fe, e in guards:
+                    if e[0] != 'binop' or e[1] not in ('Gt', 'Ge', 'Le', 'Lt'):
+                        continue
+                    def _is_cap(x):
+                        while x[0] == 'cast':
+                            x = x[2]
+                        return x == ('local', 4)
+                    if _is_cap(e[2]) == _is_cap(e[3]):
+                        continue
+                    op = e[1] if _is_cap(e[2]) else {'Gt': 'Lt', 'Ge': 'Le', 'Le': 'Ge', 'Lt': 'Gt'}[e[1]]     # capacity OP length
+                    fits = te if op in ('Ge', 'Gt') else fe       # `capacity >= len` holds on the true edge, `capacity < len` fails on the false one
+                    if fits is not None and (fits in dom.get(cbi, ()) or fits == cbi):
+                        okl = True
                 ctx.instance(rid, 'raw_packet: capacity (4th argument) tested before copying', ok=okl, site=ct['at'])
                 if not okl:
                     ctx.violation(rid, key, 'no-capacity-test', 'raw_packet copies the packet without first comparing its length with the caller\'s capacity argument', site=ct['at'], config=cfg)
@@ -513,35 +524,52 @@ def buffers_rule(ctx, facts, cfg):
 
 
 class ErrAu(Automaton):
-    """state (native outcome: None/'ok'/'err', how _0 was last set: None / ('const', v) / 'thrown' / 'other')"""
-    init = (None, None)
+    """state (native outcome: None/'ok'/'err', how _0 was last set: None / ('const', v) / 'thrown' / 'other',
+    what other locals hold on this path: frozenset of (local, kind) - the result may be built in a temporary and moved into _0)"""
+    init = (None, None, frozenset())
 
     def __init__(self, facts):
         self.facts = facts
 
+    @staticmethod
+    def _set(vals, local, kind):
+        d = {l: k for l, k in vals if l != local}
+        if kind is not None:
+            d[local] = kind
+        return frozenset(d.items())
+
     def on_stmt(self, q, f, bi, s, env):
-        out, ret = q
-        if s['k'] == 'assign' and not s['place']['proj'] and s['place']['local'] == 0:
+        out, ret, vals = q
+        if s['k'] == 'assign' and not s['place']['proj']:
             rv = s['rv']
+            kind = None
             if rv['k'] == 'use' and rv['x']['k'] == 'const' and 'val' in rv['x']:
-                return (out, ('const', rv['x']['val']))
-            return (out, 'other')
+                kind = ('const', rv['x']['val'])
+            elif rv['k'] == 'use' and rv['x']['k'] in ('copy', 'move') and not rv['x']['place']['proj']:
+                kind = dict(vals).get(rv['x']['place']['local'])
+            x = s['place']['local']
+            if x == 0:
+                return (out, kind if kind is not None else 'other', vals)
+            return (out, ret, self._set(vals, x, kind))
         return q
 
     def on_call(self, q, f, bi, t, env, flow):
-        out, ret = q
+        out, ret, vals = q
         p = F.call_path(t) or ''
-        is_ret = not t['dest']['proj'] and t['dest']['local'] == 0
+        dl = t['dest']['local'] if not t['dest']['proj'] else None
+        is_ret = dl == 0
         if p == 'c_abi::throw_err':
-            return [((out, 'thrown' if is_ret else ret), None)]
+            return [((out, 'thrown' if is_ret else ret, vals if is_ret or dl is None else self._set(vals, dl, 'thrown')), None)]
         keys = [ck for ck in self.facts.callee_keys(f, t) if not ck.startswith('ext:') and ck != '<indirect>']
+        if dl is not None and not is_ret:
+            vals = self._set(vals, dl, None)
         if keys and t['dest']['ty'].get('adt') == RESULT and not p.startswith('c_abi::throw'):
-            return [(('ok', ret), 0), (('err', ret), 1)]
+            return [(('ok', ret, vals), 0), (('err', ret, vals), 1)]
         if is_ret:
-            return [((out, 'other'), None)]
+            return [((out, 'other', vals), None)]
         if keys:
-            return [(q, None)]
-        return None
+            return [((out, ret, vals), None)]
+        return [((out, ret, vals), None)] if vals != q[2] else None
 
 
 def error_rule(ctx, facts, cfg):
@@ -585,7 +613,7 @@ def error_rule(ctx, facts, cfg):
             exits = flow.summary(key, ErrAu.init)
             bad = []
             for (q, kind) in exits:
-                out, ret = q
+                out, ret = q[0], q[1]
                 if out == 'err' and ret != 'thrown':
                     bad.append('native Err path returns %s instead of throw_err(..)' % (ret,))
                 if out == 'ok' and ret != ('const', 0):
@@ -648,7 +676,23 @@ def description_rule(ctx, facts, cfg):
                 if fl and F.last_field(st['place']) == fl[-1]:
                     stores += 1
                     rs = F.roots(f, defs, st['rv']['x']) if st['rv']['k'] == 'use' else []
+                    # a value built in the enclosing function and moved into this closure: follow the capture to where it was made
+                    pf_, pdefs_ = f, defs
+                    if '{closure' in key and rs and all(r[0] == 'param' or (r[0] == 'load' and r[1].get('local') == 1) for r in rs):
+                        parent = facts.fns.get(key.rsplit('::{closure', 1)[0])
+                        e_ = F.expr(f, defs, st['rv']['x'])
+                        while e_[0] == 'cast':
+                            e_ = e_[2]
+                        idx = next((pr['i'] for pr in (e_[1]['proj'] if e_[0] == 'load' else []) if pr['k'] == 'field'), None)
+                        if parent is not None and idx is not None:
+                            for _, pb in F.blocks(parent):
+                                for ps in pb['stmts']:
+                                    if ps['k'] == 'assign' and ps['rv']['k'] == 'aggregate' and ps['rv'].get('agg') == 'closure' and ps['rv'].get('def') == key and idx < len(ps['rv']['ops']):
+                                        pf_, pdefs_ = parent, F.single_defs(parent)
+                                        rs = F.roots(pf_, pdefs_, ps['rv']['ops'][idx])
                     from_err = False
+                    f_, defs_ = f, defs
+                    f, defs = pf_, pdefs_
                     for r in rs:
                         if r[0] == 'call' and r[1] == 'std::ffi::CString::new' and r[2]['args']:
                             inner = F.roots(f, defs, r[2]['args'][0])
@@ -657,6 +701,7 @@ def description_rule(ctx, facts, cfg):
                                     src = F.roots(f, defs, r2[2]['args'][0])
                                     if src and all(x[0] == 'param' or (x[0] == 'load' and x[1].get('local') == 1) for x in src):
                                         from_err = True
+                    f, defs = f_, defs_
                     ok = bool(rs) and from_err
                     ctx.instance(rid, '%s: CErr.%s is replaced by CString::new(<the error>.to_string())' % (key.split('::', 1)[-1], fl[-1][1]), ok=ok, site=st.get('at'))
                     if not ok:
